@@ -31,6 +31,7 @@ type Job struct {
 	MaxStates int
 	Weight    float64 // share of the time budget
 	Note      string
+	CheckEveryReplay bool
 }
 
 // Known findings ------------------------------------------------------------
@@ -227,7 +228,7 @@ func (rp *Report) RunJobs(jobs []Job, budget time.Duration, accept func(f *wx.Fa
 			rem = 2 * time.Second
 		}
 		share := time.Duration(float64(rem) * w / remW)
-		cfg := wx.Config{MaxDepth: j.MaxDepth, MaxStates: j.MaxStates, Deadline: time.Now().Add(share), IsKnown: isKnown, StopOnViolation: true}
+		cfg := wx.Config{MaxDepth: j.MaxDepth, MaxStates: j.MaxStates, Deadline: time.Now().Add(share), IsKnown: isKnown, StopOnViolation: true, CheckEveryReplay: j.CheckEveryReplay}
 		if os.Getenv("VERIF_VERBOSE") != "" {
 			name := j.Sc.Name()
 			cfg.OnLevel = func(d int, st *wx.Stats) {
